@@ -49,7 +49,9 @@ PersistedOK == EnvOK /\ ErrorsPersistedFor(S, entries, FromSeq(Ev.docs))
 DiagPersisted ==
     IF ~EnvOK THEN
         (IF \E i \in DOMAIN Ev.env : Lines(Ev.env[i].file) # Ev.env[i].split THEN "R4.split" ELSE "R4.join")
-    ELSE "ErrorsPersisted:failed-component-without-errors"
+    ELSE LET c == CHOOSE c \in S : entries[c].failed /\ ~(Ev.docs[c].present /\ Ev.docs[c].nerrors >= 1) IN
+         "ErrorsPersisted:failed-component-without-errors:" \o entries[c].outcome \o ":" \o
+         (IF entries[c].backed THEN "implements-registry-point" ELSE "stand-alone-datasource")
 
 (* ---- hydrated ---------------------------------------------------------- *)
 Ld == FromSeq(Ev.loaded)
